@@ -437,8 +437,8 @@ func selectCases(plan []planCase, tier string, seed int64) []int {
 
 // clientVerify reads the whole real log through the server with an
 // unmodified sunlight.Client.
-func clientVerify(addr string, rl *RealLog) map[string]any {
-	res := map[string]any{"ev": "Client", "ok": false, "entries": 0, "names": 0, "issuers": 0, "fallback": false, "err": ""}
+func clientVerify(addr string, rl *RealLog, overall time.Duration, attempt int) map[string]any {
+	res := map[string]any{"ev": "Client", "ok": false, "entries": 0, "names": 0, "issuers": 0, "fallback": false, "err": "", "attempt": attempt}
 	fail := func(f string, a ...any) map[string]any { res["err"] = fmt.Sprintf(f, a...); return res }
 	tr := &http.Transport{
 		DialContext: func(ctx context.Context, network, _ string) (net.Conn, error) {
@@ -462,14 +462,14 @@ func clientVerify(addr string, rl *RealLog) map[string]any {
 		PublicKey:        rl.Key.Public(),
 		HTTPClient:       &http.Client{Transport: tr, Timeout: 20 * time.Second},
 		UserAgent:        "verif-harness (verif@verif.invalid)",
-		Timeout:          20 * time.Second,
+		Timeout:          overall / 2,
 		ConcurrencyLimit: 8,
 		Logger:           logger,
 	})
 	if err != nil {
 		return fail("NewClient: %v", err)
 	}
-	ctx, cancel := context.WithTimeout(context.Background(), 60*time.Second)
+	ctx, cancel := context.WithTimeout(context.Background(), overall)
 	defer cancel()
 	cp, _, err := c.Checkpoint(ctx)
 	if err != nil {
@@ -632,7 +632,14 @@ func TestRoutes(t *testing.T) {
 			out.Emit(&recs[i])
 		}
 		total += len(recs)
-		out.Emit(clientVerify(srv.Addr, w.real))
+		// a slow machine must not look like a server that cannot be read: a
+		// failed verification is repeated once with three times the time
+		cv := clientVerify(srv.Addr, w.real, 40*time.Second, 1)
+		if cv["ok"] != true {
+			t.Logf("sunlight.Client attempt 1 failed: %v", cv["err"])
+			cv = clientVerify(srv.Addr, w.real, 120*time.Second, 2)
+		}
+		out.Emit(cv)
 		if !srv.Alive() {
 			herr++
 			t.Logf("HARNESS-ERROR skylight exited during shape %s", shape)
